@@ -278,9 +278,11 @@ def text_input_bytes(raw_bytes: bytes):
 # Operations
 # ----------------------------------------------------------------------------------------
 
-def read_all(model: PyModel, proto: M.Protocol, fmt: str, stream, batch_hint=None):
+def read_all(model: PyModel, proto: M.Protocol, fmt: str, stream, batch_hint=None, collect=False):
     """Drive the generated reader over every step in order.  Returns (delivered, error, closed):
-    delivered = [(step index, neutral value)], error = exception or None, closed = close() succeeded."""
+    delivered = [(step index, neutral value)], error = exception or None, closed = close() succeeded.
+    collect=True keeps all items of a stream step (`items = list(reader.read_x())`) and only looks at them
+    after the step is exhausted, as a caller that gathers a stream into a list does."""
     delivered = []
     ns = model.pkg.namespace
     try:
@@ -291,7 +293,11 @@ def read_all(model: PyModel, proto: M.Protocol, fmt: str, stream, batch_hint=Non
         meths = model.step_methods(reader, "read_")
         for i, (name, t, is_stream) in enumerate(proto.steps):
             qt = M.qualify(t, ns)
-            if is_stream:
+            if is_stream and collect:
+                items = list(meths[i]())
+                for item in items:
+                    delivered.append((i, model.neutral(qt, item)))
+            elif is_stream:
                 for item in meths[i]():
                     delivered.append((i, model.neutral(qt, item)))
             else:
